@@ -2,6 +2,7 @@ package internal
 
 import (
 	"context"
+	"errors"
 	"fmt"
 	"reflect"
 
@@ -61,11 +62,20 @@ func ClearMessage(m interface{}) error {
 // is converted to an error with a status code of Canceled. If it is not a
 // context error, it is returned without any conversion.
 func TranslateContextError(err error) error {
-	switch err {
-	case context.DeadlineExceeded:
-		return status.Errorf(codes.DeadlineExceeded, err.Error())
-	case context.Canceled:
-		return status.Errorf(codes.Canceled, err.Error())
+	if err == nil {
+		return nil
+	}
+	if _, ok := status.FromError(err); ok {
+		// already carries a GRPC status
+		return err
+	}
+	// like status.FromContextError, also recognize context errors that were
+	// wrapped (e.g. the *url.Error of an HTTP call that was given the context)
+	switch {
+	case errors.Is(err, context.DeadlineExceeded):
+		return status.Error(codes.DeadlineExceeded, err.Error())
+	case errors.Is(err, context.Canceled):
+		return status.Error(codes.Canceled, err.Error())
 	}
 	return err
 }
